@@ -116,8 +116,9 @@ def bitLen : Nat → Nat → Nat
 /-- `leading_zeros` of a `W`-bit pattern -/
 @[inline] def leadingZeros (W x : Nat) : Nat := W - bitLen W x
 /-- the `Shl<ExpType>` operator on `BUint`: `strict_shl` (panic when `k ≥ BITS`) under debug
-    assertions, `wrapping_shl` (`k mod BITS`… the amount is `< BITS` at every call site of this
-    file, where both agree) otherwise -/
+    assertions, `wrapping_shl` otherwise.  Only amounts `k < BITS` occur in this file (proved in
+    `Lemmas/Random.lean`); there both modes give `x * 2^k mod 2^W`.  (For `k ≥ BITS` the release
+    value written here, a shift by `k mod BITS`, is a placeholder: see Model/Shift for the real one.) -/
 def opShl (dbg : Bool) (W x k : Nat) : Outcome Nat :=
   if dbg && decide (W ≤ k) then .panic else .ok ((x * 2 ^ (k % W)) % 2 ^ W)
 /-- `BUint::widening_mul`: `(low, high)` -/
